@@ -74,3 +74,10 @@ Theorem C20_source_tests_known :
   tests_known (flat_map (fun e => snd e) GeneratedSkel.queue_code) queue_known = true.
 Proof. exact queue_tests_known. Qed.
 Print Assumptions C20_source_tests_known.
+
+(* the library's own put-back: Channel.Open as translated returns what the in-channel authentication
+   consumed to the FRONT of the queue (Requeue), after the read loop was started *)
+From Scrapli Require Import ChanOpenSrc.
+Theorem C20_chan_open_is_source : chan_open_src_ok = true.
+Proof. exact chan_open_is_source. Qed.
+Print Assumptions C20_chan_open_is_source.
